@@ -218,6 +218,7 @@ structure Arbiter where
   loopStop : Bool := false                   -- loop.add_callback(self.loop.stop) was issued
   socketEvent : Bool := false                -- Arbiter.socket_event: true only while manage_watchers starts on-demand watchers
   sockReady : Bool := false                  -- environment: select() reports a managed socket readable
+  endpointOwner : Option String := none      -- `endpoint_owner` of an ipc:// control endpoint (`endpoint_owner_mode`), else none
   deriving Repr, Inhabited
 
 /-- entries of the event loop's ready queue (`call_soon`) -/
